@@ -12,9 +12,11 @@
 
      uncovered tool          the (callee, ordinal, class) triples that no enclosing handler catches
      no_escape tool          uncovered tool ⊆ benign_sites  (context-justified sites, listed below)
-     C20 obligations         no_escape for validate / write / compile_grammar = true  (vm_compute)
-                             eject: no_escape = false; the ONLY uncovered raising site is json.dumps
-                             (TypeError on a HolographicValue) -- finding C20-eject-json-holographic
+     C20 obligations         what escapes each tool is EXACTLY known_escapes (vm_compute over the generated structure)
+                             eject: since repair 88905cd the json.dumps site (still outside any try) is BENIGN --
+                             its argument is _ast_to_dict(...) (generated: flow_eject_json_dumps_args), whose result
+                             holds native values only (Proj/ProjFacts.v dict_native, re-exported by ExnFlowEject.v);
+                             the only escapes of eject are the two of compile_gbnf_from_meta (format=gbnf)
      envelope_has_status     every `return` of every execute() yields a dict that has "status" or
                              "validation_status"                                                      *)
 From Coq Require Import String Ascii.
@@ -37,7 +39,8 @@ Definition raising : list (string * list string) :=
     ("compile_gbnf_from_meta", ["TypeError"; "AttributeError"]);
     (* emit raises on values it cannot write (Absent in value position, unknown node types) *)
     ("emit", ["Exception"]);
-    (* json refuses objects that are not dict/list/str/num/bool/None *)
+    (* json refuses objects that are not dict/list/str/num/bool/None (in general: the server's json.dumps(result);
+       the one site in eject is whitelisted in benign_sites by its argument) *)
     ("json.dumps", ["TypeError"]);
     (* schema loading: file system + parse of the schema file *)
     ("load_schema_by_name", ["Exception"]);
@@ -115,7 +118,13 @@ Definition uncovered_of (sites : list site) : list (str * N * str) :=
 Definition benign_sites : list (string * string * N) :=
   [ (* write.py: re-emit after the ENUM case-fold of one META string; the same document was emitted by the
        covered site emit#0 a few lines earlier and only a str was replaced by a str *)
-    ("write", "emit", 1) ].
+    ("write", "emit", 1);
+    (* eject.py (format=json): `data = _ast_to_dict(result.filtered_doc); output = json.dumps(data, ...)`.
+       The site is outside any try, but since repair 88905cd its argument holds dict/list/str/number/bool/None only,
+       for EVERY document: eject_json_dumps_argument (below, over the generated provenance) +
+       ExnFlowEject.eject_json_argument_native (= Proj.ProjFacts.dict_native over the generated isinstance table of
+       _convert_value).  Before the repair this was the escape of findings C20-eject-json-holographic / -nested-meta. *)
+    ("eject", "json.dumps", 0) ].
 
 Definition triple_eqb (t : string * string * N) (tool : str) (u : str * N * str) : bool :=
   let '(tl, cal, o) := t in let '(c, o', _) := u in
@@ -153,9 +162,7 @@ Definition envelope_has_status (tool : str) (returns : list (N * str)) (dict_var
 (* ---- obligations over the generated structure ------------------------------------------------------- *)
 (* genuine escapes on the pinned tree, each a replayed finding of known_findings: (tool, callee, ordinal, class) *)
 Definition known_escapes : list (string * string * N * string) :=
-  [ (* C20-eject-json-holographic, C20-eject-json-nested-meta: json.dumps(data) outside any try *)
-    ("eject", "json.dumps", 0, "TypeError");
-    (* C20-gbnf-contract-nonstring-type: compile_gbnf_from_meta(doc.meta) outside any try *)
+  [ (* C20-gbnf-contract-nonstring-type: compile_gbnf_from_meta(doc.meta) outside any try *)
     ("eject", "compile_gbnf_from_meta", 0, "TypeError"); ("eject", "compile_gbnf_from_meta", 0, "AttributeError");
     ("compile_grammar", "compile_gbnf_from_meta", 0, "TypeError");
     ("compile_grammar", "compile_gbnf_from_meta", 0, "AttributeError");
@@ -198,8 +205,32 @@ Definition no_escape_full : Prop :=
   forall tool, In tool tool_names -> escapes (L tool) (flow_of tool) = [].
 Lemma no_escape_write_refuted : no_escape (L "write") flow_write_sites flow_write_raises = false.
 Proof. vm_compute. reflexivity. Qed.
+(* eject: still refuted as a whole -- by compile_gbnf_from_meta (format=gbnf, finding C20-gbnf-contract-nonstring-type) ... *)
 Lemma no_escape_eject_refuted : no_escape (L "eject") flow_eject_sites flow_eject_raises = false.
 Proof. vm_compute. reflexivity. Qed.
+(* ... and by nothing else: the json.dumps site no longer escapes (repair 88905cd) *)
+Lemma eject_only_escape_is_gbnf_contract :
+  escapes (L "eject") (flow_eject_sites ++ flow_eject_raises)%list =
+  [(L "compile_gbnf_from_meta", 0, L "TypeError"); (L "compile_gbnf_from_meta", 0, L "AttributeError")].
+Proof. vm_compute. reflexivity. Qed.
+(* POSITIVE form: with the gbnf-contract call set aside, nothing escapes octave_eject -- every site reached by
+   format = octave / json / yaml / markdown (and the template / parse-error paths) is covered or benign *)
+Definition not_gbnf_contract (s : site) : bool := negb (str_eqb (s_callee s) (L "compile_gbnf_from_meta")).
+Lemma no_escape_eject_json :
+  no_escape (L "eject") (filter not_gbnf_contract flow_eject_sites) flow_eject_raises = true.
+Proof. vm_compute. reflexivity. Qed.
+(* the json.dumps site is STILL syntactically unprotected (no try): it is absent from `escapes` only through
+   benign_sites, i.e. through the argument theorem -- not because a handler appeared *)
+Lemma eject_json_dumps_unprotected_but_benign :
+  existsb (fun u => str_eqb (fst (fst u)) (L "json.dumps") && N.eqb (snd (fst u)) 0 && str_eqb (snd u) (L "TypeError"))
+          (uncovered_of flow_eject_sites) = true /\
+  existsb (fun u => str_eqb (fst (fst u)) (L "json.dumps")) (escapes (L "eject") (flow_eject_sites ++ flow_eject_raises)%list) = false.
+Proof. vm_compute. split; reflexivity. Qed.
+(* the whitelisted site is the ONLY json.dumps of execute() and it is applied to the output of _ast_to_dict *)
+Lemma eject_json_dumps_argument :
+  flow_eject_json_dumps_args = [(0, L "_ast_to_dict(result.filtered_doc)")] /\
+  List.length (filter (fun s => str_eqb (s_callee s) (L "json.dumps")) flow_eject_sites) = 1%nat.
+Proof. vm_compute. split; reflexivity. Qed.
 Lemma no_escape_compile_grammar_refuted :
   no_escape (L "compile_grammar") flow_compile_grammar_sites flow_compile_grammar_raises = false.
 Proof. vm_compute. reflexivity. Qed.
